@@ -439,7 +439,7 @@ def select_subnet(net, junctions, include_results=False, keep_everything_else=Fa
     if "junction_geodata" in net:
         p2["junction_geodata"] = net.junction_geodata.loc[p2.junction.index.intersection(
             net.junction_geodata.index)]
-    if "pipe_geodata" in net:
+    if "pipe_geodata" in net and "pipe" in p2:
         p2["pipe_geodata"] = net.pipe_geodata.loc[p2.pipe.index.intersection(
             net.pipe_geodata.index)]
 
